@@ -433,10 +433,16 @@ class _GenState:
             K = gen_table(rng, fam, base)
             self.handles.append((idx, "dict"))
             op = {"op": "set_table", "lit": lit(K)}
-            if rng.random() < 0.12:
+            u = rng.random()
+            if u < 0.12:
                 op["wrap"] = rng.choice(("defaultdict", "OrderedDict", "Counter", "missing"))
             yield op
             self.table_changed(K)
+            if 0.12 <= u < 0.17:
+                # the caller's dict calls back into the library (a decode of an input that tells the
+                # old table from the new one) while set_semantic_constraints is iterating over it
+                op["wrap"] = "reentrant"
+                op["x"] = gen_selfies(rng, self.ctx(), "focus")
             yield from self.after_change(idx + 1)
         elif kind == "set_bad":
             bk, l = gen_bad_set(rng, self.cur)
